@@ -46,7 +46,14 @@ META = {
         "(the search cannot perform more iterations than that). Non-trivial = the (nearest) target has >=2 simple paths of "
         "different cost, or a negative edge lies on an optimal path, or a negative cycle exists that is not reachable from "
         "the source (floyd_warshall: some pair with two simple paths of different cost, or a negative cycle with n>=2); "
-        "grid: two simple routes of different cost from start to goal. Distinct = canonical JSON of the case."
+        "grid: two simple routes of different cost from start to goal. Call histories: about a third of the cases carry one "
+        "generated in-place edit (add / remove / re-weight an edge, shortcut to the target, cut or raise an edge on an optimal "
+        "route; grids: block a cell of the returned path or rewrite a cell); the query is asked, the caller's adjacency dict / "
+        "edge list / grid is edited in place, and the query is asked again through the SAME neighbour-function, heuristic, "
+        "start, goal, list and grid objects; every answer is judged against the oracle for what those objects hold at the "
+        "moment of the call; a wrong second answer that is right through fresh objects gets the bucket suffix "
+        ":stale-after-graph-edit. A call that modifies its arguments is only labelled (arguments-mutated). "
+        "Distinct = canonical JSON of the case."
     ),
     "assumptions": [
         "reference shortest paths on Fractions (three-way cross-check DP / min-plus closure / brute-force simple paths in vf.selftest)",
